@@ -138,6 +138,18 @@ func runC06(t *sim.T, tier string) *sim.Violation {
 				}
 			}
 		}
+		// now and then thousands of rejected agency rows: each leaves a warning, so a few parses produce tens of
+		// thousands of them (counters, caps and buffers that live longer than one call)
+		if tb := m.Feed.Table("agency.txt"); tb != nil && len(tb.Rows) > 0 && !giant && t.Chance(1, 30) {
+			if c := tb.Col("agency_name"); c >= 0 {
+				for n := t.Range(1200, 4000); n > 0; n-- {
+					r := append([]string(nil), tb.Rows[0]...)
+					r[c] = ""
+					tb.Rows = append(tb.Rows, r)
+				}
+				t.Probe("thousands-of-warnings-per-parse")
+			}
+		}
 		zo := gen.DrawZipOpts(t, len(m.Feed.Tables))
 		b := m.Feed.Zip(zo)
 		inputs = append(inputs, c06Input{1, b, fmt.Sprintf("static%d(%s)", i, m.Summary())})
@@ -282,6 +294,15 @@ func runC06(t *sim.T, tier string) *sim.Violation {
 	type c06Op struct {
 		ii, obj int
 		inherit bool
+		tz      int // the Timezone the caller has written into the options object by the time of this call
+	}
+	// the caller may edit a long-lived options object between two calls (same pointer, another Timezone): the next
+	// parse must be the parse with a fresh object of the new value. planTZ is the value as planned in forward order;
+	// whatever the execution order, the field is (re)written before a call whenever it differs from what the object holds
+	planTZ := make([]int, nPool)
+	curTZ := make([]int, nPool)
+	for i := range specs {
+		planTZ[i], curTZ[i] = specs[i].TZ, specs[i].TZ
 	}
 	ops := make([]c06Op, nOps)
 	// inputs derived from the same base (an archive and its siblings) form a group: now and then the next
@@ -294,7 +315,11 @@ func runC06(t *sim.T, tier string) *sim.Violation {
 		return d
 	}
 	for k := range ops {
-		ops[k] = c06Op{t.Choose(len(inputs)), t.Choose(nPool), t.Chance(1, 2)}
+		ops[k] = c06Op{ii: t.Choose(len(inputs)), obj: t.Choose(nPool), inherit: t.Chance(1, 2)}
+		if k > 0 && t.Chance(1, 5) {
+			planTZ[ops[k].obj] = t.Weighted(3, 3, 3, 1, 1, 1, 1)
+		}
+		ops[k].tz = planTZ[ops[k].obj]
 		if k > 0 && t.Chance(1, 3) {
 			var same []int
 			for i := range inputs {
@@ -307,7 +332,7 @@ func runC06(t *sim.T, tier string) *sim.Violation {
 				t.Probe("siblings-back-to-back")
 			}
 		}
-		fmt.Fprintf(&seq, "%d:%d:%v;", ops[k].ii, ops[k].obj, ops[k].inherit)
+		fmt.Fprintf(&seq, "%d:%d:%v:%d;", ops[k].ii, ops[k].obj, ops[k].inherit, ops[k].tz)
 	}
 	// VERIF_C06_ORDER=reverse (set by the driver for its fresh child processes) executes the same
 	// operations in the opposite order and only computes the per-operation digests: a parse must be
@@ -329,6 +354,14 @@ func runC06(t *sim.T, tier string) *sim.Violation {
 		}
 		ii, obj, inherit := ops[k].ii, ops[k].obj, ops[k].inherit
 		in := inputs[ii]
+		spec := specs[obj]
+		spec.TZ = ops[k].tz
+		if in.kind == 0 && curTZ[obj] != ops[k].tz {
+			pool[obj].Timezone = spec.Location()
+			curTZ[obj] = ops[k].tz
+			t.Logf("the caller sets object #%d's Timezone field: now %s", obj, spec)
+			t.Probe("options-object-edited-between-calls")
+		}
 		var hist, histN string
 		var ok bool
 		if in.kind == 0 {
@@ -356,8 +389,8 @@ func runC06(t *sim.T, tier string) *sim.Violation {
 		for r := 0; r < R; r++ {
 			var fo *gtfs.ParseRealtimeOptions
 			if in.kind == 0 {
-				fo = specs[obj].Fresh() // a distinct but equivalent object (fresh extension, fresh LoadLocation result is cached by ExtSpec: see below)
-				if r%2 == 1 && specs[obj].TZ == 2 {
+				fo = spec.Fresh() // a distinct but equivalent object (fresh extension, fresh LoadLocation result is cached by ExtSpec: see below)
+				if r%2 == 1 && spec.TZ == 2 {
 					if l, err := time.LoadLocation("America/New_York"); err == nil {
 						fo.Timezone = l
 					}
@@ -376,7 +409,7 @@ func runC06(t *sim.T, tier string) *sim.Violation {
 						sig = strings.Replace(sig, "C06:content:", "C06:history-dependence:", 1)
 						class = "history-dependence"
 					}
-					return &sim.Violation{Class: class, Signature: sig, Detail: fmt.Sprintf("op %d (%s, object #%d %s, call #%d on that object) %s: %s", k, in.desc, obj, specs[obj], useCount[obj], what, sim.FirstDiff(hist, fs))}
+					return &sim.Violation{Class: class, Signature: sig, Detail: fmt.Sprintf("op %d (%s, object #%d %s, call #%d on that object) %s: %s", k, in.desc, obj, spec, useCount[obj], what, sim.FirstDiff(hist, fs))}
 				}
 				continue
 			}
@@ -387,8 +420,8 @@ func runC06(t *sim.T, tier string) *sim.Violation {
 		}
 		// (5) documented equivalences between option values: a nil timezone means UTC, a nil extension
 		// means no extension
-		if in.kind == 0 && (specs[obj].TZ <= 1 || specs[obj].Kind <= 1) {
-			eq := specs[obj]
+		if in.kind == 0 && (spec.TZ <= 1 || spec.Kind <= 1) {
+			eq := spec
 			if eq.TZ <= 1 {
 				eq.TZ = 1 - eq.TZ
 			}
@@ -399,7 +432,7 @@ func runC06(t *sim.T, tier string) *sim.Violation {
 			if ok3 && first != "" && es != first {
 				_, sig := classify(first, es, firstN, en)
 				sig = strings.Replace(strings.Replace(sig, "C06:content:", "C06:equivalent-options:", 1), "C06:order:", "C06:equivalent-options-order:", 1)
-				return &sim.Violation{Class: "equivalent-options", Signature: sig, Detail: fmt.Sprintf("op %d (%s): options %s and the documented-equivalent %s give different results: %s", k, in.desc, specs[obj], eq, sim.FirstDiff(first, es))}
+				return &sim.Violation{Class: "equivalent-options", Signature: sig, Detail: fmt.Sprintf("op %d (%s): options %s and the documented-equivalent %s give different results: %s", k, in.desc, spec, eq, sim.FirstDiff(first, es))}
 			}
 			t.Probe("equivalent-options-compared")
 		}
